@@ -921,6 +921,226 @@ Definition lv (st : state) : nat := length (filter (is_live st) (shared st)).
 (* ------------------------------------------------------------------ *)
 (* The interpreter, under the assumption that recursive calls are fine  *)
 
+(* ------------------------------------------------------------------ *)
+(* connection pointers only ever change by being nulled (by library-internal cascades) *)
+
+Definition cmono (st st' : state) : Prop :=
+  forall w, get_connptr w st' = get_connptr w st \/ (get_connptr w st' = Some None /\ get_connptr w st <> None).
+
+Lemma cmono_refl st : cmono st st.
+Proof. intro w. left; reflexivity. Qed.
+
+Lemma cmono_trans a b c : cmono a b -> cmono b c -> cmono a c.
+Proof.
+  intros H1 H2 w. destruct (H2 w) as [E2|[E2 N2]].
+  - destruct (H1 w) as [E1|[E1 N1]]; [left; congruence|right; split; [congruence|exact N1]].
+  - right. split; [exact E2|]. destruct (H1 w) as [E1|[E1 N1]]; [congruence|exact N1].
+Qed.
+
+Lemma cmono_eq st st' : conns st' = conns st -> sconns st' = sconns st -> cmono st st'.
+Proof. intros A B w. left. apply get_connptr_eq; assumption. Qed.
+
+Lemma cmono_null ws st : cmono st (null_watchers ws st).
+Proof.
+  intro w. rewrite get_connptr_null_watchers. destruct (existsb (wref_eqb w) ws); [|left; reflexivity].
+  destruct (get_connptr w st); [right; split; [reflexivity|discriminate]|left; reflexivity].
+Qed.
+
+(* in particular no handle is destroyed or brought back *)
+Lemma cmono_dom st st' w : cmono st st' -> (get_connptr w st' <> None <-> get_connptr w st <> None).
+Proof.
+  intro H. destruct (H w) as [E|[E N]]; [rewrite E; reflexivity|].
+  rewrite E. split; intro X; [exact N|discriminate].
+Qed.
+
+Lemma cmono_set_sb l sb st : cmono st (set_sb l sb st).
+Proof. intro w. left. apply get_connptr_set_sb. Qed.
+
+Lemma cmono_set_rep l r st : cmono st (set_rep l r st).
+Proof. unfold set_rep. destruct (get_sb l st); [apply cmono_set_sb|apply cmono_refl]. Qed.
+
+Lemma cmono_set_impl i im st : cmono st (set_impl i im st).
+Proof. apply cmono_eq; reflexivity. Qed.
+
+(* operations that leave every slot base where it is *)
+Definition lite (st st' : state) : Prop :=
+  slots st' = slots st /\ impls st' = impls st /\ sigs st' = sigs st /\ cmono st st'.
+
+Lemma lite_refl st : lite st st.
+Proof. split; [reflexivity|]. split; [reflexivity|]. split; [reflexivity|apply cmono_refl]. Qed.
+
+Lemma lite_trans a b c : lite a b -> lite b c -> lite a c.
+Proof.
+  intros (A1 & A2 & A3 & A4) (B1 & B2 & B3 & B4).
+  split; [congruence|]. split; [congruence|]. split; [congruence|eapply cmono_trans; eauto].
+Qed.
+
+Lemma lite_cmono a b : lite a b -> cmono a b.
+Proof. intros (_ & _ & _ & H). exact H. Qed.
+
+Lemma track_remove_lite t rid st st' : track_remove t rid st = Ok st' -> lite st st'.
+Proof.
+  unfold track_remove. destruct (live_track t st) as [tr|]; [|discriminate].
+  destruct (t_clearing tr); intro H; inversion H; (split; [reflexivity|]; split; [reflexivity|]; split; [reflexivity|]);
+    apply cmono_eq; reflexivity.
+Qed.
+
+Lemma unbind_all_lite rid refs : forall st st', unbind_all rid refs st = Ok st' -> lite st st'.
+Proof.
+  induction refs as [|t refs IH]; intros st st' H; cbn [unbind_all] in H.
+  - inversion H. apply lite_refl.
+  - destruct (track_remove t rid st) as [st1|e] eqn:E; cbn [rbind] in H; [|discriminate].
+    eapply lite_trans; [eapply track_remove_lite; eauto|apply IH; exact H].
+Qed.
+
+Lemma null_watchers_lite ws st : lite st (null_watchers ws st).
+Proof.
+  destruct (null_watchers_fields ws st) as (A & B & C & _).
+  split; [exact A|]. split; [exact C|]. split; [exact B|apply cmono_null].
+Qed.
+
+Lemma rep_delete_lite r st st' : rep_delete r st = Ok st' -> lite st st'.
+Proof.
+  unfold rep_delete. intro H.
+  set (sta := if r_attached r then with_leaked (leaked st + 1) st else st) in H.
+  assert (L0 : lite st sta).
+  { unfold sta. destruct (r_attached r); [|apply lite_refl].
+    split; [reflexivity|]. split; [reflexivity|]. split; [reflexivity|apply cmono_eq; reflexivity]. }
+  destruct (match r_fn r with Some f => unbind_all (r_id r) (f_refs f) sta | None => Ok sta end) as [st1|e] eqn:E;
+    cbn [rbind] in H; [|discriminate].
+  inversion H; subst st'. clear H.
+  assert (L1 : lite sta st1).
+  { destruct (r_fn r); [eapply unbind_all_lite; eauto|inversion E; apply lite_refl]. }
+  eapply lite_trans; [exact L0|]. eapply lite_trans; [exact L1|apply null_watchers_lite].
+Qed.
+
+Lemma sb_delete_lite sb st st' : sb_delete sb st = Ok st' -> lite st st'.
+Proof.
+  unfold sb_delete. destruct (sb_rep sb); [apply rep_delete_lite|]. intro H; inversion H; apply lite_refl.
+Qed.
+
+Lemma delete_sbs_lite l : forall st st', delete_sbs l st = Ok st' -> lite st st'.
+Proof.
+  induction l as [|x l IH]; intros st st' H; cbn [delete_sbs] in H.
+  - inversion H. apply lite_refl.
+  - destruct (sb_delete (n_sb x) st) as [st1|e] eqn:E; cbn [rbind] in H; [|discriminate].
+    eapply lite_trans; [eapply sb_delete_lite; eauto|apply IH; exact H].
+Qed.
+
+Lemma erase_node_cm i n st st' : erase_node i n st = Ok st' -> cmono st st'.
+Proof.
+  unfold erase_node. destruct (aget i (impls st)) as [im|]; [|discriminate].
+  destruct (find_node n (i_nodes im)) as [nd|]; [|discriminate]. intro H.
+  eapply cmono_trans; [apply cmono_set_impl|]. apply lite_cmono. eapply sb_delete_lite; eauto.
+Qed.
+
+Lemma parent_cleanup_cm i n st st' : parent_cleanup i n st = Ok st' -> cmono st st'.
+Proof.
+  unfold parent_cleanup. destruct (aget i (impls st)) as [im|]; [|intro H; inversion H; apply cmono_refl].
+  destruct (i_dying im); [intro H; inversion H; apply cmono_refl|].
+  destruct (N.eqb (i_exec im) 0); [apply erase_node_cm|].
+  intro H; inversion H. apply cmono_set_impl.
+Qed.
+
+Lemma rep_disconnect_cm l st st' : rep_disconnect l st = Ok st' -> cmono st st'.
+Proof.
+  unfold rep_disconnect. destruct (get_rep l st) as [r|]; [|intro H; inversion H; apply cmono_refl].
+  destruct (r_attached r).
+  - destruct l as [s|i n]; [discriminate|]. intro H.
+    eapply cmono_trans; [apply cmono_set_rep|eapply parent_cleanup_cm; eauto].
+  - intro H; inversion H. apply cmono_set_rep.
+Qed.
+
+Lemma rep_destroy_cm l st st' : rep_destroy l st = Ok st' -> cmono st st'.
+Proof.
+  unfold rep_destroy. destruct (get_rep l st) as [r|]; [|intro H; inversion H; apply cmono_refl].
+  intro H. eapply cmono_trans; [apply cmono_set_rep|].
+  destruct (r_fn r); [apply lite_cmono; eapply unbind_all_lite; eauto|inversion H; apply cmono_refl].
+Qed.
+
+Lemma rep_invalidated_cm rid st st' : rep_invalidated rid st = Ok st' -> cmono st st'.
+Proof.
+  unfold rep_invalidated. destruct (find_rep rid st) as [l|]; [|discriminate].
+  destruct (rep_disconnect l st) as [st1|e] eqn:E; cbn [rbind]; [|discriminate].
+  intro H. eapply cmono_trans; [eapply rep_disconnect_cm; eauto|].
+  destruct (find_rep rid st1) as [l'|]; [eapply rep_destroy_cm; eauto|inversion H; apply cmono_refl].
+Qed.
+
+Lemma track_round_cm fuel : forall k t st st', track_round fuel k t st = Ok st' -> cmono st st'.
+Proof.
+  induction fuel as [|fuel IH]; intros k t st st' H; cbn [track_round] in H; [inversion H; apply cmono_refl|].
+  destruct (live_track t st) as [tr|]; [|discriminate].
+  destruct (t_list tr) as [l|]; [|inversion H; apply cmono_refl].
+  destruct (nth_error l k) as [[rid [|]]|]; [| |inversion H; apply cmono_refl].
+  - destruct (rep_invalidated rid st) as [st1|e] eqn:E; cbn [rbind] in H; [|discriminate].
+    eapply cmono_trans; [eapply rep_invalidated_cm; eauto|eapply IH; eauto].
+  - eapply IH; eauto.
+Qed.
+
+Lemma cmono_set_track t tr st : cmono st (set_track t tr st).
+Proof. apply cmono_eq; reflexivity. Qed.
+
+Lemma track_notify_cm t st st' : track_notify t st = Ok st' -> cmono st st'.
+Proof.
+  unfold track_notify. destruct (live_track t st) as [tr|]; [|intro H; inversion H; apply cmono_refl].
+  destruct (t_list tr) as [l|]; [|intro H; inversion H; apply cmono_refl].
+  match goal with |- (st2 <- ?x ;; _) = _ -> _ => destruct x as [st2|e] eqn:E end; cbn [rbind]; [|discriminate].
+  intro H; inversion H.
+  eapply cmono_trans; [apply cmono_set_track|]. eapply cmono_trans; [eapply track_round_cm; eauto|apply cmono_set_track].
+Qed.
+
+Lemma disconnect_nodes_cm i ns : forall st st', disconnect_nodes i ns st = Ok st' -> cmono st st'.
+Proof.
+  induction ns as [|n ns IH]; intros st st' H; cbn [disconnect_nodes] in H; [inversion H; apply cmono_refl|].
+  destruct (rep_disconnect (LNode i n) st) as [st1|e] eqn:E; cbn [rbind] in H; [|discriminate].
+  eapply cmono_trans; [eapply rep_disconnect_cm; eauto|eapply IH; eauto].
+Qed.
+
+Lemma destroy_impl_cm i st st' : destroy_impl i st = Ok st' -> cmono st st'.
+Proof.
+  unfold destroy_impl, upd_impl. destruct (aget i (impls st)) as [im0|]; cbn [rbind]; [|discriminate].
+  match goal with |- match aget i (impls ?s) with _ => _ end = _ -> _ => set (st1 := s) end.
+  destruct (aget i (impls st1)) as [im|]; [|discriminate].
+  destruct (disconnect_nodes i (map n_id (i_nodes im)) st1) as [st2|e] eqn:E2; cbn [rbind]; [|discriminate].
+  destruct (aget i (impls st2)) as [im2|]; [|discriminate].
+  destruct (delete_sbs (i_nodes im2) (set_impl i (with_nodes [] im2) st2)) as [st4|e] eqn:E4; cbn [rbind]; [|discriminate].
+  intro H; inversion H.
+  apply (cmono_trans st st1); [apply cmono_set_impl|].
+  eapply cmono_trans; [eapply disconnect_nodes_cm; eauto|].
+  eapply cmono_trans; [apply cmono_set_impl|].
+  eapply cmono_trans; [apply lite_cmono; eapply delete_sbs_lite; eauto|]. apply cmono_eq; reflexivity.
+Qed.
+
+Lemma release_check_cm i st st' : release_check i st = Ok st' -> cmono st st'.
+Proof.
+  unfold release_check. destruct (aget i (impls st)) as [im|]; [|intro H; inversion H; apply cmono_refl].
+  destruct (N.eqb (refcount i st) 0 && negb (i_dying im)); [apply destroy_impl_cm|intro H; inversion H; apply cmono_refl].
+Qed.
+
+(* destruction of a signal object or of a trackable: no connection handle appears or disappears *)
+Lemma sig_destroy_cm g go st st' : sig_destroy g go st = Ok st' -> cmono st st'.
+Proof.
+  unfold sig_destroy. intro E.
+  destruct (if gk_track (g_kind go)
+            then st1 <- track_notify (trackable_of_sig g) st ;;
+                 Ok (with_tracks (aset (trackable_of_sig g) None (tracks st1)) st1)
+            else Ok st) as [st1|e] eqn:E1; cbn [rbind] in E; [|discriminate].
+  assert (C1 : cmono st st1).
+  { destruct (gk_track (g_kind go)); [|inversion E1; apply cmono_refl].
+    destruct (track_notify (trackable_of_sig g) st) as [sta|] eqn:Ea; cbn [rbind] in E1; [|discriminate].
+    inversion E1. eapply cmono_trans; [eapply track_notify_cm; eauto|apply cmono_eq; reflexivity]. }
+  eapply cmono_trans; [exact C1|].
+  apply (cmono_trans _ (with_sigs (aset g None (sigs st1)) st1)); [apply cmono_eq; reflexivity|].
+  destruct (g_impl go); [eapply release_check_cm; eauto|inversion E; apply cmono_refl].
+Qed.
+
+Lemma conn_dom_sig_destroy g go st st' : sig_destroy g go st = Ok st' ->
+  forall c, get_connptr (WC c) st' <> None -> get_connptr (WC c) st <> None.
+Proof. intros E c Hc. exact (proj1 (cmono_dom _ _ (WC c) (sig_destroy_cm _ _ _ _ E)) Hc). Qed.
+Lemma conn_dom_track_notify t st st' : track_notify t st = Ok st' ->
+  forall c, get_connptr (WC c) st' <> None -> get_connptr (WC c) st <> None.
+Proof. intros E c Hc. exact (proj1 (cmono_dom _ _ (WC c) (track_notify_cm _ _ _ E)) Hc). Qed.
+
 Section Safe.
   Variable prog : program.
   Variable rec : callee -> state -> outcome N.
@@ -1277,7 +1497,7 @@ Section Safe.
     | _ => True
     end.
   Proof.
-    intro H. destruct o as [t|t|td ts|td ts|t|t|t|s rk body refs|s rk|sn so|sn so|sd ss|sd ss|s arg catch|s b|s|s|s|g k|gn go|gn go|gd gs|gd gs|g|g|g|g s c front mv|g arg catch|g|g b|g|s g|c|cn co|cd cs|c|c b|c|c|k c|k|k c|kn ko|kd ks|k1 k2|k c|k|k b|k|k| | ]; try exact I; cbn [step].
+    intro H. destruct o as [t|t|td ts|td ts|t|t|t|s rk body refs|s rk|sn so|sn so|sd ss|sd ss|s arg catch|s b|s|s|s|g k|gn go|gn go|gd gs|gd gs|g|g|g|g s c front mv|g arg catch|g|g b|g|s g|c|cn co|cd cs|c|c b|c|c|c|c|k c|k|k c|kn ko|kd ks|k1 k2|k c|k|k b|k|k| | ]; try exact I; cbn [step].
     - (* OTNew *)
       unfold fresh_track. destruct (aget t (tracks st)) eqn:Hf; cbn [andb]; [apply skip_ok; exact H|].
       destruct (N.ltb_spec t 1000); [|apply skip_ok; exact H].
@@ -1336,7 +1556,7 @@ Section Safe.
     | _ => True
     end.
   Proof.
-    intro H. pose proof (wf_c _ H) as Hc. destruct o as [t|t|td ts|td ts|t|t|t|s rk body refs|s rk|sn so|sn so|sd ss|sd ss|s arg catch|s b|s|s|s|g k|gn go|gn go|gd gs|gd gs|g|g|g|g s c front mv|g arg catch|g|g b|g|s g|c|cn co|cd cs|c|c b|c|c|k c|k|k c|kn ko|kd ks|k1 k2|k c|k|k b|k|k| | ]; try exact I; cbn [step].
+    intro H. pose proof (wf_c _ H) as Hc. destruct o as [t|t|td ts|td ts|t|t|t|s rk body refs|s rk|sn so|sn so|sd ss|sd ss|s arg catch|s b|s|s|s|g k|gn go|gn go|gd gs|gd gs|g|g|g|g s c front mv|g arg catch|g|g b|g|s g|c|cn co|cd cs|c|c b|c|c|c|c|k c|k|k c|kn ko|kd ks|k1 k2|k c|k|k b|k|k| | ]; try exact I; cbn [step].
     - (* OSNew *)
       unfold fresh_slot. destruct (aget s (slots st)) eqn:Hf; cbn [andb]; [apply skip_ok; exact H|].
       destruct (forallb _ refs) eqn:Hlive; cbn [andb]; [|apply skip_ok; exact H].
@@ -1463,7 +1683,7 @@ Section Safe.
     | _ => True
     end.
   Proof.
-    intro H. pose proof (wf_c _ H) as Hc. destruct o as [t|t|td ts|td ts|t|t|t|s rk body refs|s rk|sn so|sn so|sd ss|sd ss|s arg catch|s b|s|s|s|g k|gn go|gn go|gd gs|gd gs|g|g|g|g s c front mv|g arg catch|g|g b|g|s g|c|cn co|cd cs|c|c b|c|c|k c|k|k c|kn ko|kd ks|k1 k2|k c|k|k b|k|k| | ]; try exact I; cbn [step].
+    intro H. pose proof (wf_c _ H) as Hc. destruct o as [t|t|td ts|td ts|t|t|t|s rk body refs|s rk|sn so|sn so|sd ss|sd ss|s arg catch|s b|s|s|s|g k|gn go|gn go|gd gs|gd gs|g|g|g|g s c front mv|g arg catch|g|g b|g|s g|c|cn co|cd cs|c|c b|c|c|c|c|k c|k|k c|kn ko|kd ks|k1 k2|k c|k|k b|k|k| | ]; try exact I; cbn [step].
     - (* OGNew *)
       unfold fresh_sig. destruct (aget g (sigs st)) eqn:Hf; cbn [andb]; [apply skip_ok; exact H|].
       destruct (negb (gk_track k) || fresh_track (trackable_of_sig g) st); [|apply skip_ok; exact H].
@@ -1669,15 +1889,30 @@ Section Safe.
   Lemma has_rep_Guar_live st w p : WF st -> get_connptr w st = Some p -> forall i n, p = Some (i, n) -> has_rep i n st.
   Proof. intros H. apply live_conn_target. exact (wf_c _ H). Qed.
 
+  (* destruction of a connection object (OCDel, and the end-of-operation collection of a shared one) *)
+  Lemma conn_destroy_full c p st : WF st -> get_connptr (WC c) st = Some p ->
+    exists st1, watch_remove p (WC c) st = Ok st1 /\ Casc st st1 /\
+      (forall w', get_connptr w' st1 = get_connptr w' st) /\
+      Guar st (with_conns (aset c None (conns st1)) st1).
+  Proof.
+    intros H Hp. pose proof (wf_c _ H) as Hc.
+    destruct (watch_remove_ok (WC c) p st Hc Hp) as (st1 & E1 & X1 & C1 & _ & P1). exists st1.
+    split; [exact E1|]. split; [exact C1|]. split; [exact P1|].
+    eapply (kill_conn_ok (WC c)); eauto; try reflexivity; [constructor; reflexivity| |].
+    + intros w' Hne. destruct w' as [c'|k']; cbn [get_connptr conns sconns with_conns]; [|reflexivity].
+      rewrite aget_aset_other; [reflexivity|congruence].
+    + intros i n. cbn [get_connptr conns with_conns]. rewrite aget_aset_same. discriminate.
+  Qed.
+
   Lemma step_conn_ok o st : WF st ->
     match o with
-    | OCEmpty _ | OCCopy _ _ | OCAssign _ _ | OCDisc _ | OCBlock _ _ | OCDel _ | OCQuery _
+    | OCEmpty _ | OCCopy _ _ | OCAssign _ _ | OCDisc _ | OCBlock _ _ | OCShare _ | OCRelease _ | OCDel _ | OCQuery _
     | OKNew _ _ | OKEmpty _ | OKAssign _ _ | OKMove _ _ | OKMoveAssign _ _ | OKSwap _ _ | OKRelease _ _
     | OKDisc _ | OKBlock _ _ | OKDel _ | OKQuery _ => out_ok st (step prog rec o st)
     | _ => True
     end.
   Proof.
-    intro H. pose proof (wf_c _ H) as Hc. destruct o as [t|t|td ts|td ts|t|t|t|s rk body refs|s rk|sn so|sn so|sd ss|sd ss|s arg catch|s b|s|s|s|g k|gn go|gn go|gd gs|gd gs|g|g|g|g s c front mv|g arg catch|g|g b|g|s g|c|cn co|cd cs|c|c b|c|c|k c|k|k c|kn ko|kd ks|k1 k2|k c|k|k b|k|k| | ]; try exact I; cbn [step].
+    intro H. pose proof (wf_c _ H) as Hc. destruct o as [t|t|td ts|td ts|t|t|t|s rk body refs|s rk|sn so|sn so|sd ss|sd ss|s arg catch|s b|s|s|s|g k|gn go|gn go|gd gs|gd gs|g|g|g|g s c front mv|g arg catch|g|g b|g|s g|c|cn co|cd cs|c|c b|c|c|c|c|k c|k|k c|kn ko|kd ks|k1 k2|k c|k|k b|k|k| | ]; try exact I; cbn [step].
     - (* OCEmpty *)
       destruct (fresh_conn c st); [|apply skip_ok; exact H].
       destruct (set_conn_ok (WC c) None st H) as (st' & E & G); [intros i n X; discriminate|].
@@ -1696,13 +1931,22 @@ Section Safe.
       apply liftu_G. eapply conn_disconnect_G; eauto.
     - (* OCBlock *)
       destruct (get_connptr (WC c) st) as [p|] eqn:Hp; [|apply skip_ok; exact H]. eapply conn_block_ok; eauto.
+    - (* OCShare *)
+      destruct (get_connptr (WC c) st) as [p|] eqn:Hp; [|apply skip_ok; exact H].
+      destruct (negb (is_shared (conn_key c) st)); cbn [andb]; [|apply skip_ok; exact H].
+      destruct (N.ltb_spec c 1000); [|apply skip_ok; exact H].
+      cbn [out_ok]. apply Guar_with_shared; [apply Guar_refl; exact H|].
+      apply Forall_aset; [exact (wf_shared _ H)|]. right. right. unfold conn_key. cbn [fst]. lia.
+    - (* OCRelease *)
+      destruct (get_connptr (WC c) st) as [p|] eqn:Hp; [|apply skip_ok; exact H].
+      unfold is_shared. destruct (aget (conn_key c) (shared st)) as [b|] eqn:Hb; cbn [andb]; [|apply skip_ok; exact H].
+      destruct (negb (is_released (conn_key c) st)); [|apply skip_ok; exact H].
+      cbn [out_ok]. apply Guar_with_shared; [apply Guar_refl; exact H|].
+      apply Forall_aset; [exact (wf_shared _ H)|]. exact (shared_key_lt st (conn_key c) b H Hb).
     - (* OCDel *)
       destruct (get_connptr (WC c) st) as [p|] eqn:Hp; [|apply skip_ok; exact H].
-      destruct (watch_remove_ok (WC c) p st Hc Hp) as (st1 & E1 & X1 & C1 & _ & P1). rewrite E1. cbn [rbind liftu lift out_ok].
-      eapply (kill_conn_ok (WC c)); eauto; try reflexivity; [constructor; reflexivity| |].
-      + intros w' Hne. destruct w' as [c'|k']; cbn [get_connptr conns sconns with_conns]; [|reflexivity].
-        rewrite aget_aset_other; [reflexivity|congruence].
-      + intros i n. cbn [get_connptr conns with_conns]. rewrite aget_aset_same. discriminate.
+      destruct (negb (is_shared (conn_key c) st)); [|apply skip_ok; exact H].
+      destruct (conn_destroy_full c p st H Hp) as (st1 & E1 & _ & _ & G). rewrite E1. exact G.
     - (* OCQuery *)
       destruct (get_connptr (WC c) st) as [p|] eqn:Hp; [|apply skip_ok; exact H]. eapply conn_query_ok; eauto.
     - (* OKNew *)
@@ -1856,13 +2100,16 @@ Section Safe.
     - intro X. destruct (IH X) as (r & Hin & Hl). exists r. split; [right; exact Hin|exact Hl].
   Qed.
 
-  (* liveness of keys only decreases when sigs and tracks only die *)
+  (* liveness of keys only decreases when sigs, tracks and connection objects only die *)
   Lemma key_live_mono st st' k :
     (forall g, live_sig g st' <> None -> live_sig g st <> None) ->
     (forall t, live_track t st' <> None -> live_track t st <> None) ->
+    (forall c, get_connptr (WC c) st' <> None -> get_connptr (WC c) st <> None) ->
     key_live k st' = true -> key_live k st = true.
   Proof.
-    intros Hs Ht. unfold key_live. destruct (N.leb 2000 k).
+    intros Hs Ht Hc. unfold key_live. destruct (N.leb 4000 k); [|destruct (N.leb 2000 k)].
+    - specialize (Hc (k - 4000)). destruct (get_connptr (WC (k - 4000)) st'); [|discriminate].
+      destruct (get_connptr (WC (k - 4000)) st); [reflexivity|]. intros _. exfalso. apply Hc; [discriminate|reflexivity].
     - specialize (Hs (k - 2000)). destruct (live_sig (k - 2000) st'); [|discriminate].
       destruct (live_sig (k - 2000) st); [reflexivity|]. intros _. exfalso. apply Hs; [discriminate|reflexivity].
     - specialize (Ht k). destruct (live_track k st'); [|discriminate].
@@ -1883,26 +2130,44 @@ Section Safe.
     { intros st2 Hsh Hd Hm. unfold lv. rewrite Hsh.
       assert (X : (length (filter (is_live st2) (shared st)) < length (filter (is_live st) (shared st)))%nat); [|unfold lv in Hlv; lia].
       exact (filter_length_lt (is_live st) (is_live st2) (shared st) (t, rel) Hin Hlive Hd Hm). }
-    destruct (N.leb_spec 2000 t) as [Hge|Hlt].
+    destruct (N.leb_spec 4000 t) as [Hge4|Hlt4]; [|destruct (N.leb_spec 2000 t) as [Hge|Hlt]].
+    - (* a connection object *)
+      unfold is_live, key_live in Hlive. cbn [fst] in Hlive.
+      destruct (N.leb_spec 4000 t) as [_|]; [|lia].
+      destruct (get_connptr (WC (t - 4000)) st) as [p|] eqn:Hp; [|discriminate].
+      destruct (conn_destroy_full (t - 4000) p st H Hp) as (st1 & E & C & P & G). rewrite E. cbn [rbind].
+      set (st2 := with_conns (aset (t - 4000) None (conns st1)) st1) in *.
+      destruct (IH st2 (proj1 G)) as (st' & E' & G').
+      + apply Hdec; [exact (ca_shared _ _ C)| |].
+        * unfold is_live, key_live. cbn [fst]. destruct (N.leb_spec 4000 t) as [_|]; [|lia].
+          unfold st2. cbn [get_connptr conns with_conns]. rewrite aget_aset_same. reflexivity.
+        * intros [k r]. unfold is_live. cbn [fst]. apply key_live_mono.
+          -- intros g Hg. unfold live_sig in *. unfold st2 in Hg. cbn [sigs with_conns] in Hg.
+             rewrite (ca_sigs _ _ C) in Hg. exact Hg.
+          -- intros t' Ht'. apply (tlive_live st st1 t' (ca_tracks _ _ C)). exact Ht'.
+          -- intros c Hc. rewrite <- P. unfold st2 in Hc. cbn [get_connptr conns with_conns] in Hc.
+             destruct (N.eqb_spec c (t - 4000)) as [->|Hne]; [rewrite aget_aset_same in Hc; exfalso; apply Hc; reflexivity|].
+             rewrite aget_aset_other in Hc by exact Hne. exact Hc.
+      + exists st'. split; [exact E'|eapply Guar_trans; eauto].
     - (* a signal object *)
       unfold is_live, key_live in Hlive. cbn [fst] in Hlive.
-      destruct (N.leb_spec 2000 t) as [_|]; [|lia].
+      destruct (N.leb_spec 4000 t) as [|_]; [lia|]. destruct (N.leb_spec 2000 t) as [_|]; [|lia].
       destruct (live_sig (t - 2000) st) as [go|] eqn:Hl; [|discriminate].
       destruct (sig_destroy_full (t - 2000) go st H Hl) as (st1 & E & G & Hsh & Hsg & Htr & _). rewrite E. cbn [rbind].
       destruct (IH st1 (proj1 G)) as (st' & E' & G').
       + apply Hdec; [exact Hsh| |].
-        * unfold is_live, key_live. cbn [fst]. destruct (N.leb_spec 2000 t) as [_|]; [|lia].
+        * unfold is_live, key_live. cbn [fst]. destruct (N.leb_spec 4000 t) as [|_]; [lia|]. destruct (N.leb_spec 2000 t) as [_|]; [|lia].
           rewrite Hsg, N.eqb_refl. reflexivity.
-        * intros [k r]. unfold is_live. cbn [fst]. apply key_live_mono; [|exact Htr].
+        * intros [k r]. unfold is_live. cbn [fst]. apply key_live_mono; [|exact Htr|exact (conn_dom_sig_destroy _ _ _ _ E)].
           intros g Hg. rewrite Hsg in Hg. destruct (N.eqb g (t - 2000)); [exfalso; apply Hg; reflexivity|exact Hg].
       + exists st'. split; [exact E'|eapply Guar_trans; eauto].
     - (* a trackable *)
-      assert (Ht : t < 1000) by (destruct Hk as [|[]]; [assumption|lia]).
+      assert (Ht : t < 1000) by (destruct Hk as [|[[]|[]]]; [assumption|lia|lia]).
       destruct (del_user_track_G t st H Ht) as (st1 & E & C & G). rewrite E. cbn [rbind].
       set (st2 := with_tracks (aset t None (tracks st1)) st1) in *.
       destruct (IH st2 (proj1 G)) as (st' & E' & G').
       + apply Hdec; [exact (ca_shared _ _ C)| |].
-        * unfold is_live, key_live. cbn [fst]. destruct (N.leb_spec 2000 t) as [|_]; [lia|].
+        * unfold is_live, key_live. cbn [fst]. destruct (N.leb_spec 4000 t) as [|_]; [lia|]. destruct (N.leb_spec 2000 t) as [|_]; [lia|].
           unfold st2. rewrite live_track_aset, N.eqb_refl. reflexivity.
         * intros [k r]. unfold is_live. cbn [fst]. apply key_live_mono.
           -- intros g Hg. unfold live_sig in *. unfold st2 in Hg. cbn [sigs with_tracks] in Hg.
@@ -1910,6 +2175,7 @@ Section Safe.
           -- intros t' Ht'. unfold st2 in Ht'. rewrite live_track_aset in Ht'.
              destruct (N.eqb t' t); [exfalso; apply Ht'; reflexivity|].
              apply (tlive_live st st1 t' (ca_tracks _ _ C)). exact Ht'.
+          -- intros c Hc. apply (conn_dom_track_notify _ _ _ E). exact Hc.
       + exists st'. split; [exact E'|eapply Guar_trans; eauto].
   Qed.
 
